@@ -288,6 +288,51 @@ class _TablesToMatch:
         return m
 
 
+def _namedtuples_to_tuples(tree):
+    """A private NamedTuple (or frozen dataclass used the same way) that only bundles values reads as the plain tuple: `NT(a, b, c)` is
+    `(a, b, c)` and `x.field` is `x[i]`.  Only module-level classes whose every member is an annotated field, and only field names that
+    occur in no other role in the module (no c_ast slot, no assigned attribute of that name), are rewritten."""
+    nts = {}
+    for st in tree.body:
+        if isinstance(st, ast.ClassDef) and any((isinstance(b, ast.Name) and b.id == "NamedTuple") or (isinstance(b, ast.Attribute) and b.attr == "NamedTuple") for b in st.bases):
+            body = [x for x in st.body if not (isinstance(x, ast.Expr) and isinstance(x.value, ast.Constant))]
+            if body and all(isinstance(x, ast.AnnAssign) and isinstance(x.target, ast.Name) and x.value is None for x in body):
+                nts[st.name] = [x.target.id for x in body]
+    if not nts:
+        return
+    stored = {n.attr for n in ast.walk(tree) if isinstance(n, ast.Attribute) and isinstance(n.ctx, (ast.Store, ast.Del))}
+    counts = {}
+    for fields in nts.values():
+        for f in fields:
+            counts[f] = counts.get(f, 0) + 1
+    index = {}
+    for name, fields in nts.items():
+        for i, f in enumerate(fields):
+            if counts[f] == 1 and f not in stored:
+                index[f] = i
+
+    class T(ast.NodeTransformer):
+        def visit_Call(self, n):
+            self.generic_visit(n)
+            if isinstance(n.func, ast.Name) and n.func.id in nts and not any(isinstance(a, ast.Starred) for a in n.args):
+                fields = nts[n.func.id]
+                vals = dict(zip(fields, n.args))
+                for k in n.keywords:
+                    if k.arg is None:
+                        return n
+                    vals[k.arg] = k.value
+                if set(vals) == set(fields):
+                    return ast.copy_location(ast.Tuple(elts=[vals[f] for f in fields], ctx=ast.Load()), n)
+            return n
+
+        def visit_Attribute(self, n):
+            self.generic_visit(n)
+            if isinstance(n.ctx, ast.Load) and n.attr in index and isinstance(n.value, ast.Name):
+                return ast.copy_location(ast.Subscript(value=n.value, slice=ast.Constant(value=index[n.attr]), ctx=ast.Load()), n)
+            return n
+    T().visit(tree)
+
+
 def _inline_class_tuples(tree):
     """`isinstance(x, _NAMES)` with `_NAMES = (c_ast.A, c_ast.B, ...)` bound once at module level reads as `isinstance(x, (c_ast.A, c_ast.B, ...))`"""
     import copy
@@ -357,6 +402,7 @@ class Module:
             self.tree = ast.parse(self.src, filename=path)
         except SyntaxError as e:  # the tree must at least compile
             raise AnalysisError(f"{path} does not parse: {e}")
+        _namedtuples_to_tuples(self.tree)
         _inline_class_tuples(self.tree)
         self.tree = _ChainsToMatch().visit(self.tree)     # one normal form for dispatch on a value: `if x == A: .. elif x == B: .. else: ..` (3+ arms) reads as match/case
         _static_to_method(self.tree)
